@@ -12,7 +12,7 @@ def Op.worse : Op → Bool
   | .subscribe _ .raisingWorse => true
   | _ => false
 
-/-- hypothesis of `C10_spec_holds` (the open finding `subscriber-repr-error-escapes`): no operation of the history subscribes such a handler -/
+/-- no operation of the history subscribes such a handler (hypothesis of `C10_spec_holds` before fix 9f49616; unused now) -/
 def noWorseOps (ops : List Op) : Bool := ops.all (fun op => !op.worse)
 
 @[simp] theorem noWorse_nil : noWorse [] = true := rfl
@@ -64,15 +64,15 @@ theorem firstRaise_noWorse (subs live : List Sub) (h : noWorse subs = true) : fi
       obtain ⟨i, beh⟩ := s
       cases beh <;> simp_all [behRaises] <;> (try (split at hb <;> simp_all))
 
-/-- if no subscriber raises an exception that defeats `safe_repr`, nothing escapes from `_computed` -/
-theorem subEscapes_noWorse (subs : List Sub) (h : noWorse subs = true) : subEscapes subs = false := by
+/-- if no subscriber raises an exception that defeats `safe_repr`, `safe_repr` returns for the exception of the round -/
+theorem safeReprRaises_noWorse (subs : List Sub) (h : noWorse subs = true) : safeReprRaises subs = false := by
   have := firstRaise_noWorse subs subs h
-  unfold subEscapes
+  unfold safeReprRaises
   cases hf : firstRaise subs subs with
   | none => rfl
   | some b => cases b <;> simp_all
 
-/-- the observer's state mirrors the future (simulation relation used for `C10_spec_holds`, whose hypotheses are the last two fields) -/
+/-- the observer's state mirrors the future (simulation relation used for `C10_spec_holds`, whose hypothesis is the last field) -/
 structure Rel (k : Kind) (w : Watch) (f : Fut) : Prop where
   kind : f.kind = k
   known : w.known = f.out
@@ -81,7 +81,6 @@ structure Rel (k : Kind) (w : Watch) (f : Fut) : Prop where
   done : k.isTask = true → w.done = !f.alive
   sink : k.sinking = true → f.subs = []
   stats : k.isTask = true → f.statsOk = true     -- hypothesis `hstats` of C10_spec_holds: the perf-stats step can run
-  noworse : noWorse f.subs = true                -- hypothesis `hops` of C10_spec_holds: no subscriber defeats safe_repr
 
 /-- a subscriber called with a future that holds `o` makes exactly the notification the property asks for -/
 theorem notifyOne_of_out (f : Fut) (o : Outc) (h : f.out = some o) (s : Sub) : notifyOne f s = notif o s := by
@@ -132,81 +131,81 @@ local macro "rel_step_tac" : tactic => `(tactic| (
 theorem rel_step_value (k : Kind) (w : Watch) (f : Fut) (h : Rel k w f) :
     ∃ w', watchStep k w (observe f .value).2 = .ok w' ∧
       Rel k { w' with runs := (observe f .value).2.runs } (observe f .value).1 := by
-  obtain ⟨hk, hkn, hs, hr, hb, hsink, hst, hnw⟩ := h
+  obtain ⟨hk, hkn, hs, hr, hb, hsink, hst⟩ := h
   subst hk
-  have hesc : subEscapes f.subs = false := subEscapes_noWorse f.subs hnw
+  have hesc : subEscapes f.subs = false := rfl
   rel_step_tac
 
 theorem rel_step_error (k : Kind) (w : Watch) (f : Fut) (h : Rel k w f) :
     ∃ w', watchStep k w (observe f .error).2 = .ok w' ∧
       Rel k { w' with runs := (observe f .error).2.runs } (observe f .error).1 := by
-  obtain ⟨hk, hkn, hs, hr, hb, hsink, hst, hnw⟩ := h
+  obtain ⟨hk, hkn, hs, hr, hb, hsink, hst⟩ := h
   subst hk
-  have hesc : subEscapes f.subs = false := subEscapes_noWorse f.subs hnw
+  have hesc : subEscapes f.subs = false := rfl
   rel_step_tac
 
 theorem rel_step_call (k : Kind) (w : Watch) (f : Fut) (h : Rel k w f) :
     ∃ w', watchStep k w (observe f .call).2 = .ok w' ∧
       Rel k { w' with runs := (observe f .call).2.runs } (observe f .call).1 := by
-  obtain ⟨hk, hkn, hs, hr, hb, hsink, hst, hnw⟩ := h
+  obtain ⟨hk, hkn, hs, hr, hb, hsink, hst⟩ := h
   subst hk
-  have hesc : subEscapes f.subs = false := subEscapes_noWorse f.subs hnw
+  have hesc : subEscapes f.subs = false := rfl
   rel_step_tac
 
 theorem rel_step_isComputed (k : Kind) (w : Watch) (f : Fut) (h : Rel k w f) :
     ∃ w', watchStep k w (observe f .isComputed).2 = .ok w' ∧
       Rel k { w' with runs := (observe f .isComputed).2.runs } (observe f .isComputed).1 := by
-  obtain ⟨hk, hkn, hs, hr, hb, hsink, hst, hnw⟩ := h
+  obtain ⟨hk, hkn, hs, hr, hb, hsink, hst⟩ := h
   subst hk
-  have hesc : subEscapes f.subs = false := subEscapes_noWorse f.subs hnw
+  have hesc : subEscapes f.subs = false := rfl
   rel_step_tac
 
 theorem rel_step_setValue (k : Kind) (w : Watch) (f : Fut) (v : Nat) (h : Rel k w f) :
     ∃ w', watchStep k w (observe f (.setValue v)).2 = .ok w' ∧
       Rel k { w' with runs := (observe f (.setValue v)).2.runs } (observe f (.setValue v)).1 := by
-  obtain ⟨hk, hkn, hs, hr, hb, hsink, hst, hnw⟩ := h
+  obtain ⟨hk, hkn, hs, hr, hb, hsink, hst⟩ := h
   subst hk
-  have hesc : subEscapes f.subs = false := subEscapes_noWorse f.subs hnw
+  have hesc : subEscapes f.subs = false := rfl
   rel_step_tac
 
 theorem rel_step_setError (k : Kind) (w : Watch) (f : Fut) (e : Nat) (h : Rel k w f) :
     ∃ w', watchStep k w (observe f (.setError e)).2 = .ok w' ∧
       Rel k { w' with runs := (observe f (.setError e)).2.runs } (observe f (.setError e)).1 := by
-  obtain ⟨hk, hkn, hs, hr, hb, hsink, hst, hnw⟩ := h
+  obtain ⟨hk, hkn, hs, hr, hb, hsink, hst⟩ := h
   subst hk
-  have hesc : subEscapes f.subs = false := subEscapes_noWorse f.subs hnw
+  have hesc : subEscapes f.subs = false := rfl
   rel_step_tac
 
 theorem rel_step_setErrorNone (k : Kind) (w : Watch) (f : Fut) (h : Rel k w f) :
     ∃ w', watchStep k w (observe f .setErrorNone).2 = .ok w' ∧
       Rel k { w' with runs := (observe f .setErrorNone).2.runs } (observe f .setErrorNone).1 := by
-  obtain ⟨hk, hkn, hs, hr, hb, hsink, hst, hnw⟩ := h
+  obtain ⟨hk, hkn, hs, hr, hb, hsink, hst⟩ := h
   subst hk
-  have hesc : subEscapes f.subs = false := subEscapes_noWorse f.subs hnw
+  have hesc : subEscapes f.subs = false := rfl
   rel_step_tac
 
 theorem rel_step_reset (k : Kind) (w : Watch) (f : Fut) (h : Rel k w f) :
     ∃ w', watchStep k w (observe f .reset).2 = .ok w' ∧
       Rel k { w' with runs := (observe f .reset).2.runs } (observe f .reset).1 := by
-  obtain ⟨hk, hkn, hs, hr, hb, hsink, hst, hnw⟩ := h
+  obtain ⟨hk, hkn, hs, hr, hb, hsink, hst⟩ := h
   subst hk
-  have hesc : subEscapes f.subs = false := subEscapes_noWorse f.subs hnw
+  have hesc : subEscapes f.subs = false := rfl
   rel_step_tac
 
-theorem rel_step_subscribe (k : Kind) (w : Watch) (f : Fut) (i : Nat) (r : Beh) (h : Rel k w f) (hw : r ≠ .raisingWorse) :
+theorem rel_step_subscribe (k : Kind) (w : Watch) (f : Fut) (i : Nat) (r : Beh) (h : Rel k w f) :
     ∃ w', watchStep k w (observe f (.subscribe i r)).2 = .ok w' ∧
       Rel k { w' with runs := (observe f (.subscribe i r)).2.runs } (observe f (.subscribe i r)).1 := by
-  obtain ⟨hk, hkn, hs, hr, hb, hsink, hst, hnw⟩ := h
+  obtain ⟨hk, hkn, hs, hr, hb, hsink, hst⟩ := h
   subst hk
-  have hesc : subEscapes f.subs = false := subEscapes_noWorse f.subs hnw
+  have hesc : subEscapes f.subs = false := rfl
   rel_step_tac
 
 theorem rel_step_unsubscribe (k : Kind) (w : Watch) (f : Fut) (i : Nat) (h : Rel k w f) :
     ∃ w', watchStep k w (observe f (.unsubscribe i)).2 = .ok w' ∧
       Rel k { w' with runs := (observe f (.unsubscribe i)).2.runs } (observe f (.unsubscribe i)).1 := by
-  obtain ⟨hk, hkn, hs, hr, hb, hsink, hst, hnw⟩ := h
+  obtain ⟨hk, hkn, hs, hr, hb, hsink, hst⟩ := h
   subst hk
-  have hesc : subEscapes f.subs = false := subEscapes_noWorse f.subs hnw
+  have hesc : subEscapes f.subs = false := rfl
   cases hh : hasSub f.subs i <;> cases hk : f.kind <;> cases ho : f.out <;>
     simp_all [watchStep, observe, step, unsubStep, Kind.sinking] <;>
     (try rel_close)
@@ -214,28 +213,28 @@ theorem rel_step_unsubscribe (k : Kind) (w : Watch) (f : Fut) (i : Nat) (h : Rel
 theorem rel_step_option (k : Kind) (w : Watch) (f : Fut) (d : DbgOpt) (on : Bool) (h : Rel k w f) :
     ∃ w', watchStep k w (observe f (.option d on)).2 = .ok w' ∧
       Rel k { w' with runs := (observe f (.option d on)).2.runs } (observe f (.option d on)).1 := by
-  obtain ⟨hk, hkn, hs, hr, hb, hsink, hst, hnw⟩ := h
+  obtain ⟨hk, hkn, hs, hr, hb, hsink, hst⟩ := h
   subst hk
-  have hesc : subEscapes f.subs = false := subEscapes_noWorse f.subs hnw
+  have hesc : subEscapes f.subs = false := rfl
   cases d <;> rel_step_tac
 
 theorem rel_step_raiseIfError (k : Kind) (w : Watch) (f : Fut) (h : Rel k w f) :
     ∃ w', watchStep k w (observe f .raiseIfError).2 = .ok w' ∧
       Rel k { w' with runs := (observe f .raiseIfError).2.runs } (observe f .raiseIfError).1 := by
-  obtain ⟨hk, hkn, hs, hr, hb, hsink, hst, hnw⟩ := h
+  obtain ⟨hk, hkn, hs, hr, hb, hsink, hst⟩ := h
   subst hk
-  have hesc : subEscapes f.subs = false := subEscapes_noWorse f.subs hnw
+  have hesc : subEscapes f.subs = false := rfl
   rel_step_tac
 
 theorem rel_step_inspect (k : Kind) (w : Watch) (f : Fut) (h : Rel k w f) :
     ∃ w', watchStep k w (observe f .inspect).2 = .ok w' ∧
       Rel k { w' with runs := (observe f .inspect).2.runs } (observe f .inspect).1 := by
-  obtain ⟨hk, hkn, hs, hr, hb, hsink, hst, hnw⟩ := h
+  obtain ⟨hk, hkn, hs, hr, hb, hsink, hst⟩ := h
   subst hk
-  have hesc : subEscapes f.subs = false := subEscapes_noWorse f.subs hnw
+  have hesc : subEscapes f.subs = false := rfl
   rel_step_tac
 
-theorem rel_step (k : Kind) (w : Watch) (f : Fut) (op : Op) (h : Rel k w f) (hop : op.worse = false) :
+theorem rel_step (k : Kind) (w : Watch) (f : Fut) (op : Op) (h : Rel k w f) :
     ∃ w', watchStep k w (observe f op).2 = .ok w' ∧
       Rel k { w' with runs := (observe f op).2.runs } (observe f op).1 := by
   cases op with
@@ -247,21 +246,20 @@ theorem rel_step (k : Kind) (w : Watch) (f : Fut) (op : Op) (h : Rel k w f) (hop
   | setError e => exact rel_step_setError k w f e h
   | setErrorNone => exact rel_step_setErrorNone k w f h
   | reset => exact rel_step_reset k w f h
-  | subscribe i r => exact rel_step_subscribe k w f i r h (by cases r <;> simp_all [Op.worse])
+  | subscribe i r => exact rel_step_subscribe k w f i r h
   | unsubscribe i => exact rel_step_unsubscribe k w f i h
   | option d on => exact rel_step_option k w f d on h
   | raiseIfError => exact rel_step_raiseIfError k w f h
   | inspect => exact rel_step_inspect k w f h
 
-theorem watchRun_ok (k : Kind) (ops : List Op) (w : Watch) (f : Fut) (h : Rel k w f) (hops : noWorseOps ops = true) :
+theorem watchRun_ok (k : Kind) (ops : List Op) (w : Watch) (f : Fut) (h : Rel k w f) :
     ∃ w', watchRun k w (run f ops) = .ok w' := by
   induction ops generalizing w f with
   | nil => exact ⟨w, rfl⟩
   | cons op ops ih =>
-    simp only [noWorseOps, List.all_cons, Bool.and_eq_true, Bool.not_eq_true'] at hops
-    obtain ⟨w', h1, h2⟩ := rel_step k w f op h hops.1
+    obtain ⟨w', h1, h2⟩ := rel_step k w f op h
     simp only [run, watchRun, h1]
-    exact ih _ _ h2 (by simpa [noWorseOps] using hops.2)
+    exact ih _ _ h2
 
 /-! ### how often the computation runs -/
 
